@@ -155,8 +155,25 @@ def one_trace(cfg, table, seeds, k, target, T):
         B.clf = _copy.deepcopy(B.clf)
     before = B.registered()[0]
     hdr["differs_before_load"] = it.group(B.statedicts()) != it.group(A.statedicts())
+    # every other experiment deserialises the checkpoint ONCE and first loads that object into a third instance,
+    # which then runs on: the target must still receive the checkpoint as it was saved (a load must not make the
+    # instance share mutable state with the checkpoint object)
+    sd = None
+    if (k + len(target)) % 2 == 0 and k > 0:
+        try:
+            sd = Bundle.deserialise(blob)
+            D = Bundle(cfg, sb + 101)
+            zs, zl, zr = make_inputs(D, sy + 7, m + 3)
+            for t in range(m):
+                D.step(zs[t], zl[t], zr[t])
+            D.load(blob, sd)
+            for t in range(m, m + 3):
+                D.step(zs[t], zl[t], zr[t])
+            hdr["cfg"]["shared_checkpoint_object"] = True
+        except Exception:
+            sd = None                          # the decoy is not the subject: fall back to a private copy
     try:
-        B.load(blob)
+        B.load(blob, sd)
     except Exception as e:
         evs.append({"op": {"a": "load", "m": m}, "ret": {"t": "err", "e": type(e).__name__}})
         det.append({"raised": type(e).__name__, "message": str(e)[:600]})
